@@ -68,7 +68,7 @@ pub fn build_image(cfg: &HistCfg) -> Built {
     let mut parts = Vec::new();
     let mut f = Fmt::new(g1, Rng::new(rng.next_u64()));
     fsx::populate(&mut f, cfg.recipe, &mut rng);
-    if cfg.full_dir && (f.g.fat32 || f.dir_capacity(0) - f.dirs[0].used >= 3) && f.g.spc <= 8 {
+    if cfg.full_dir && (f.g.fat32 || f.dir_capacity(0) - f.dirs[0].used >= 3) && f.g.spc <= if cfg.prop == "C09" || cfg.prop == "C10" { 64 } else { 8 } {
         let d = f.mkdir(0, &crate::mkfs::name11("FULLDIR"), 0, crate::mkfs::Alloc::Seq);
         let cap = f.dir_capacity(d);
         for i in 0..cap - 2 {
